@@ -393,6 +393,42 @@ class State:
     def constraints(self):
         return self.defs + self.pc
 
+    def known(self, c):
+        """True / False if the boolean term c (or its negation) was assumed on this path, else None"""
+        if isinstance(c, bool):
+            return c
+        i = c.get_id()
+        if i in self.true_ids:
+            return True
+        if i in self.false_ids:
+            return False
+        return None
+
+    def assume_def(self, c):
+        """add a definitional assumption (input domain) and remember it syntactically"""
+        if isinstance(c, bool):
+            if not c:
+                raise Infeasible()
+            return
+        self.defs.append(c)
+        self.true_ids.add(c.get_id())
+        if z3.is_not(c):
+            self.false_ids.add(c.arg(0).get_id())
+
+    def assume_sign(self, t, nonneg):
+        """record the sign of an int term in the syntactic forms the models look up"""
+        if is_conc(t):
+            return
+        ge, lt_ = (t >= 0), (t < 0)
+        if nonneg:
+            self.defs.append(ge)
+            self.true_ids.add(ge.get_id())
+            self.false_ids.add(lt_.get_id())
+        else:
+            self.defs.append(lt_)
+            self.true_ids.add(lt_.get_id())
+            self.false_ids.add(ge.get_id())
+
 
 class Outcome:
     __slots__ = ("kind", "value", "state", "msg")
@@ -504,6 +540,8 @@ class Executor:
         m = re.fullmatch(r"(?:[\w:]*::)?(\w+)::<.*>::(\w+)", text)
         if m and m.group(1) in self.prog.enums and m.group(2) in self.prog.enums[m.group(1)]:
             return EnumV(m.group(1), self.prog.enums[m.group(1)].index(m.group(2)))
+        if text.startswith("ZeroSized: "):
+            text = text[11:]
         if text.startswith("{closure@"):
             return Agg("closure:" + norm_type(text), ())
         text = apply_subst(text, fr.subst if fr else None)
@@ -1423,6 +1461,9 @@ class Executor:
             tdict = dict(targets)
             bb_false = tdict.get(0, other)
             bb_true = tdict.get(1, other)
+            kn = st.known(v)
+            if kn is not None:
+                v = kn
             if isinstance(v, bool):
                 self.goto(st, fr, bb_true if v else bb_false)
                 return None
